@@ -645,10 +645,10 @@ func (H) Run(c *core.RunCtx) {
 						// as tsdb/memdb's metadata worker: PrepareFlush in the worker, Flush in its own goroutine
 						// the flush checker never starts a flush of a database while one is running
 						sim.Await(func() bool { return metaFlushing == 0 })
+						metaFlushing++ // before anything that can yield: the competitor of a suspend op waits on it too
 						snapshot := n.snapshotMetricNames()
 						n.meta.PrepareFlush()
 						flushing++
-						metaFlushing++
 						sim.SpawnIn(n.inc, "flushmeta", func() {
 							defer func() { metaFlushing-- }()
 							if err := n.meta.Flush(); err != nil {
